@@ -903,6 +903,12 @@ Qed.
 (** * After a fetch jj's records are the remote's values, so a push that follows without an
     external update in between is accepted for every requested ref (the lease never rejects
     without cause). *)
+Lemma oid_of_resolved c : oid_of (resolved c) = c.
+Proof.
+  unfold oid_of, resolved, as_normal. destruct (c =? 0) eqn:E; [|reflexivity].
+  apply N.eqb_eq in E. now subst.
+Qed.
+
 Lemma rfind_notin (m : rrmap) k : ~ In k (keys m) -> rfind m k = None.
 Proof.
   unfold keys. induction m as [|[j r] m IH]; cbn [rfind map fst In]; [reflexivity|].
@@ -1009,7 +1015,7 @@ Section FetchThenPush.
       { specialize (Hrec n). unfold tproj in Hrec. unfold classify_ref_push_action in Hc.
         unfold tracked_target in Hb, Hcf, Hc.
         destruct (r_tracked (rget (j_remote v) n)) eqn:T.
-        - rewrite Hb, Hrec. reflexivity.
+        - rewrite Hb, Hrec. now rewrite oid_of_resolved.
         - (* untracked: only an absent remote ref can be pushed *)
           destruct (teqb (get (j_local v) n) absent); [discriminate|].
           destruct (has_conflict (get (j_local v) n)); [discriminate|]. cbn [has_conflict absent] in Hc.
